@@ -24,6 +24,7 @@ Section TraceOf.
     | QUpdate name _ => TUpdate name (match p with PUpdate r => r | _ => inr 2 end)
     | QPull name k uo => TOpen name k uo
     | QCancel i => TCancel i
+    | QStall i => TStall i
     end.
 
   Fixpoint tevs_of (qs : list (sreq rmask request)) (ps : list (sresp M)) : list (tev M rmask) :=
